@@ -636,7 +636,65 @@ def rule_mass_guard_agreement(ctx):
     ctx.covered('R11.10', 'massless-primary guard: constructor and read-back test the same quantity (%s)' % b[0], 2, floor=2)
 
 
+def rule_pal_newton(ctx):
+    """R11.11: the low-eccentricity branch of reb_tools_solve_kepler_pal solves two equations f0(p,q) = f1(p,q) = 0 by
+    Newton's method. One pass through the loop body is summarised symbolically; with J the Jacobian of (f0, f1) with
+    respect to (q, p) obtained by differentiating the two residuals of the source, the step must satisfy
+    J (dq, dp)^T = -(f0, f1)^T identically. A step built from the transposed inverse still converges for small e, but only
+    linearly and ever more slowly as e approaches the branch limit, so the fixed number of iterations ends far from the
+    root (Pal elements then give a different particle than the classical ones)."""
+    import sympy as sp
+    from . import symexec, e8
+    tu = cfront.load_tu('tools.c')
+    fn = tu.func('reb_tools_solve_kepler_pal')
+    loop = None
+    for x in walk(cfront.body(fn)):
+        if x.get('kind') in ('DoStmt', 'WhileStmt', 'ForStmt'):
+            body_ = x['inner'][0] if x.get('kind') == 'DoStmt' else x['inner'][-1]
+            if any(is_assign(e) and e['opcode'] == '-=' for e in walk(body_)):
+                loop = body_
+                break
+    anchor(loop is not None, 'Newton loop of reb_tools_solve_kepler_pal')
+    st = symexec.State()
+    items = loop.get('inner', [])
+    unknowns = [render(e['inner'][0]) for e in walk(loop) if is_assign(e) and e['opcode'] == '-=']
+    anchor(len(unknowns) == 2, 'the loop updates two unknowns with -=')
+    u0, u1 = (st.sym(u) for u in unknowns)
+    try:
+        symexec.run_block(items, st, ())
+    except AnalysisError as ex:
+        raise AnalysisError('R11.11: the Newton loop body cannot be summarised: %s' % ex)
+    # the residuals: the two locals of the body that are multiplied into both updates
+    resid = [nm for nm in st.vals if nm not in unknowns and all(st.vals[nm].has(u) for u in (u0, u1)) and isinstance(st.vals[nm], sp.Expr)]
+    d0, d1 = st.vals[unknowns[0]] - u0, st.vals[unknowns[1]] - u1
+    # candidates f: locals whose value appears linearly in both steps - take the two named first in the body
+    cands = []
+    for it in items:
+        if it.get('kind') == 'DeclStmt':
+            for d in it.get('inner', []):
+                if d.get('kind') == 'VarDecl' and d.get('name') in st.vals:
+                    cands.append(d['name'])
+    fs = [c for c in cands if sp.diff(sp.expand(d0), sp.Symbol('___')) == 0][:0]
+    # identify f0, f1 as the locals whose expressions contain the data (h, k, lambda): the right-hand sides of the equations
+    data = [st.sym(x) for x in ('h', 'k', 'lambda')]
+    fs = [c for c in cands if any(st.vals[c].has(s_) for s_ in data)]
+    anchor(len(fs) == 2, 'two residuals built from h, k, lambda in the loop body (%s)' % fs)
+    f0, f1 = st.vals[fs[0]], st.vals[fs[1]]
+    J = sp.Matrix([[sp.diff(f0, u0), sp.diff(f0, u1)], [sp.diff(f1, u0), sp.diff(f1, u1)]])
+    lhs = J * sp.Matrix([d0, d1]) + sp.Matrix([f0, f1])
+    n = 0
+    for k_, comp in enumerate(lhs):
+        n += 1
+        r_ = sp.simplify(comp)
+        ok = r_ == 0 or e8.zero_test(comp, n=3, seed=k_, ranges={str(u0): (0.05, 0.25), str(u1): (0.05, 0.25)}) < 1e-25
+        if not ok:
+            ctx.report('R11.11', 'pal:newton:%d' % k_, 'src/tools.c:%s reb_tools_solve_kepler_pal' % line_of(loop),
+                       'the update of (%s, %s) is not the Newton step for the residuals %s, %s: J*step + f has a non-zero component %d (the inverse Jacobian is applied transposed or with wrong entries), so the iteration converges at best linearly' % (unknowns[0], unknowns[1], fs[0], fs[1], k_))
+    ctx.covered('R11.11', 'Pal Kepler solver: loop body step satisfies J step = -f for the Jacobian of its own residuals (symbolic)', n, floor=2)
+
+
 def run(ctx):
+    rule_pal_newton(ctx)
     rule_mass_guard_agreement(ctx)
     rule_angle_range(ctx)
     rule_pericentre_time(ctx)
